@@ -19,11 +19,13 @@ let () = iter_lines (fun line ->
   | ["resp"; code; sline; hdrs; body; is_seq; closable; passthrough; auto_cl; ncb; made_seq; is_head] ->
       let r = { r_headers = kvs s_of hdrs; r_code = z_of_int (int_of_string code); r_line = s_of sline; r_body = items body;
                 r_is_seq = b is_seq; r_closable = b closable; r_passthrough = b passthrough; r_auto_cl = b auto_cl;
-                r_ncb = nat_of_int (int_of_string ncb); r_wrapped_cb = false } in
+                r_autocorrect = false;
+                r_callbacks = List.init (int_of_string ncb) (fun i -> CbUser (nat_of_int i)) } in
       let r = if b made_seq then make_sequence r else r in
       (match wsgi_response_id r (b is_head) with
        | Err e -> perr e
        | Ok ((s, l), h) ->
            cat "/" pitem s.s_chunks ^ " " ^ ps l ^ " " ^ cat "/" (fun (k, v) -> ps k ^ "=" ^ ps v) h ^ " "
-           ^ string_of_int (int_of_nat s.s_counts.c_wrapped) ^ " " ^ string_of_int (int_of_nat s.s_counts.c_callbacks))
+           ^ cat "," (function EWrapped -> "w" | EUser i -> string_of_int (int_of_nat i) | EIterClose -> "g")
+               (List.filter (fun e -> e <> EIterClose) s.s_trace))
   | _ -> "bad-command")
